@@ -45,7 +45,7 @@ ASSUMPTIONS = [
 ]
 BUDGET = {
     "quick": dict(cases=12, shards=4, timeout=600),
-    "thorough": dict(cases=60, shards=16, timeout=3000, time=500),
+    "thorough": dict(cases=40, shards=16, timeout=3000, time=330),
 }
 CLASSES = ["keep2_default", "keepall_noepoch", "keepall_default", "keep2_noepoch", "keep2_custom",
            "keepall_mixed", "keep2_default", "keepall_custom", "keepall_default", "keep2_default"]
@@ -120,7 +120,8 @@ def generate(rng, tier, i):
     case.update({
         "class": cls, "keep2": keep2, "fmt": fmt, "groups": rng.choice([1, 2]),
         "death_seed": rng.randrange(1 << 30), "death_all": tier == "thorough",
-        "two_faults": tier == "thorough" and i % 3 == 0, "n_max": n_max,
+        "two_faults": (3 if i % 3 == 0 else 0) if tier == "thorough" else (1 if i % 2 == 0 else 0),
+        "n_max": n_max,
     })
     return case
 
@@ -370,7 +371,7 @@ def _with_facts(facts, fn):
     try:
         return fn()
     except core.Violation as v:
-        v.details = dict(v.details, d11=facts)
+        v.details = dict(v.details, d11=facts, crash={k: facts[k] for k in ("update", "kind", "event", "where")})
         raise
 
 
@@ -644,11 +645,19 @@ def _case(case, mon, T, scn, tracer, base, problems):
         mon.stat("real_death_mismatch", len(mism))
         mon.notes.append("C16 crash-model mismatch: " + repr(mism[:2])[:600])
     # ---- recovery oracle on every crash state
-    nested = [] if case["two_faults"] else None
     pick2 = set()
-    if nested is not None:
+    if case["two_faults"]:
+        # second fault: the first pick is directed at first crashes that leave files of the
+        # interrupted update behind while the history does not have its row yet (the recovery run's
+        # control flow looks at the directory), the others are seed-chosen
         mon.cls("two_faults")
-        pick2 = set(id(s) for s in rng.sample(inner, min(3, len(inner))))
+        left = [s for s in inner if s.csv_rows == s.k - 1 and s.renames_done >= 1 and s.k < n + 1]
+        picks = [rng.choice(left)] if left else []
+        if picks:
+            mon.cls("two_faults_leftover_directed")
+        rest = [s for s in inner if s not in picks]
+        picks += rng.sample(rest, min(int(case["two_faults"]) - len(picks), len(rest)))
+        pick2 = set(id(s) for s in picks)
     second = []
     for s in states:
         rroot = os.path.join(base, "rec")
